@@ -57,4 +57,7 @@ for d in sorted(glob.glob(os.path.join(V, 'seeded', '*-*'))):
     print(name, {k: st.get(k) for k in ('applies', 'demo_fails', 'caught')}, flush=True)
     json.dump(status, open(status_path, 'w'), indent=1, sort_keys=True)
 subprocess.run(['/venv/bin/python', os.path.join(V, 'harness', 'gen_constants.py')], capture_output=True)
-subprocess.run(['rm', '-rf'] + glob.glob(os.path.join(V, 'replays', '*')))
+swept = {os.path.basename(d).split('-')[0] for d in glob.glob(os.path.join(V, 'seeded', '*-*'))
+         if not only or os.path.basename(d) in only or os.path.basename(d).split('-')[0] in only}
+for prop in swept:      # only the replay files of the mutant runs made here
+    subprocess.run(['rm', '-f'] + glob.glob(os.path.join(V, 'replays', prop + '-*.json')))
